@@ -1,34 +1,80 @@
 open Model
 open Zio
 let zl l = List.map z_of_int l
-let pairs l = String.concat " " (List.map (fun (a, b) -> Printf.sprintf "%d %d" (int_of_z a) (int_of_z b)) l)
+let iz = int_of_z
+let pairs l = String.concat " " (List.map (fun (a, b) -> Printf.sprintf "%d %d" (iz a) (iz b)) l)
+let q_of_int n = { qnum = z_of_int n; qden = XH }
+let q_str q = let r = qred q in Printf.sprintf "%d %d" (iz r.qnum) (int_of_pos r.qden)
+(* split l into its first n elements and the rest *)
+let split n l = (take n l, drop n l)
+
+let cmd_find_peaks rest =
+  match ints rest with
+  | gap :: lext :: rext :: mina :: minc :: maxd :: nch :: ng :: r ->
+      let gains = zl (take ng r) in
+      let r = drop ng r in
+      let nh = List.hd r in
+      let rec hits k l = if k = 0 then [] else
+        (match l with
+         | t :: len :: dt :: ch :: ar :: tl ->
+             { ht = z_of_int t; hlen = z_of_int len; hdt = z_of_int dt; hch = z_of_int ch; harea = z_of_int ar }
+             :: hits (k - 1) tl
+         | _ -> failwith "hits") in
+      let hs = hits nh (List.tl r) in
+      let p = { fp_gap = z_of_int gap; fp_lext = z_of_int lext; fp_rext = z_of_int rext;
+                fp_min_area = z_of_int mina; fp_min_ch = z_of_int minc; fp_max_dur = z_of_int maxd } in
+      (match find_peaks p gains (nat_of_int nch) hs with
+       | Err e -> Printf.sprintf "err %d" (iz e)
+       | Ok ps ->
+           String.concat " " ("ok" :: string_of_int (List.length ps) :: List.map (fun q ->
+             join ([iz q.pt; iz q.plen; iz q.pdt; iz q.pnhits; iz q.parea; iz q.pmaxgap] @ List.map iz q.papc)) ps))
+  | _ -> "BAD"
+
+(* replace_merged n_orig n_merge (s e)* : orig elements are 0..n-1, merge element k is -(k+1) *)
+let cmd_replace_merged rest =
+  match ints rest with
+  | n :: k :: r ->
+      let orig = List.init n (fun i -> z_of_int i) in
+      let rec mw j l = if j = k then [] else
+        (match l with s :: e :: tl -> ((z_of_int (-(j + 1)), z_of_int s), z_of_int e) :: mw (j + 1) tl | _ -> failwith "mw") in
+      (match replace_merged orig (mw 0 r) with
+       | Err e -> Printf.sprintf "err %d" (iz e)
+       | Ok l -> String.concat " " ("ok" :: List.map (fun z -> string_of_int (iz z)) l))
+  | _ -> "BAD"
+
+(* merge_peaks ns nch npeaks (t len dt area nhits apc[nch] data[ns])* nse (s e)* *)
+let cmd_merge_peaks rest =
+  match ints rest with
+  | ns :: nch :: np :: r ->
+      let rec peaks k l = if k = 0 then ([], l) else
+        (match l with
+         | t :: len :: dt :: area :: nh :: tl ->
+             let (apc, tl) = split nch tl in
+             let (data, tl) = split ns tl in
+             let (ps, tl) = peaks (k - 1) tl in
+             ({ mt = z_of_int t; mlen = z_of_int len; mdt = z_of_int dt; marea = z_of_int area; mapc = zl apc;
+                mnhits = z_of_int nh; mdata = List.map q_of_int data } :: ps, tl)
+         | _ -> failwith "peaks") in
+      let (ps, r) = peaks np r in
+      let nse = List.hd r in
+      let rec se k l = if k = 0 then [] else
+        (match l with s :: e :: tl -> (z_of_int s, z_of_int e) :: se (k - 1) tl | _ -> failwith "se") in
+      (match merge_peaks (z_of_int ns) (nat_of_int nch) ps (se nse (List.tl r)) with
+       | Err e -> Printf.sprintf "err %d" (iz e)
+       | Ok gs ->
+           String.concat " | " ("ok" :: List.map (fun (p, endt) ->
+             String.concat " " ([join [iz p.mt; iz p.mlen; iz p.mdt; iz p.marea; iz p.mnhits; iz endt]; join (List.map iz p.mapc)]
+                                @ List.map q_str p.mdata)) gs))
+  | _ -> "BAD"
+
 let handle toks =
   match toks with
   | "sma" :: rest ->
       (match ints rest with
        | w :: n :: r -> pairs (sma (zl (take n r)) (z_of_int w))
        | _ -> "BAD")
-  | "find_peaks" :: rest ->
-      (match ints rest with
-       | gap :: lext :: rext :: mina :: minc :: maxd :: nch :: ng :: r ->
-           let gains = zl (take ng r) in
-           let r = drop ng r in
-           let nh = List.hd r in
-           let rec hits k l = if k = 0 then [] else
-             (match l with
-              | t :: len :: dt :: ch :: ar :: tl ->
-                  { ht = z_of_int t; hlen = z_of_int len; hdt = z_of_int dt; hch = z_of_int ch; harea = z_of_int ar }
-                  :: hits (k - 1) tl
-              | _ -> failwith "hits") in
-           let hs = hits nh (List.tl r) in
-           let p = { fp_gap = z_of_int gap; fp_lext = z_of_int lext; fp_rext = z_of_int rext;
-                     fp_min_area = z_of_int mina; fp_min_ch = z_of_int minc; fp_max_dur = z_of_int maxd } in
-           (match find_peaks p gains (nat_of_int nch) hs with
-            | Err e -> Printf.sprintf "err %d" (int_of_z e)
-            | Ok ps ->
-                String.concat " " ("ok" :: string_of_int (List.length ps) :: List.map (fun q ->
-                  join ([int_of_z q.pt; int_of_z q.plen; int_of_z q.pdt; int_of_z q.pnhits; int_of_z q.parea;
-                         int_of_z q.pmaxgap] @ List.map int_of_z q.papc)) ps))
-       | _ -> "BAD")
+  | "find_peaks" :: rest -> cmd_find_peaks rest
+  | "replace_merged" :: rest -> cmd_replace_merged rest
+  | "merge_peaks" :: rest -> cmd_merge_peaks rest
   | _ -> "UNKNOWN"
 let () = main_loop handle
